@@ -342,3 +342,30 @@ def field_of_diff(text):
     head = text.split(':', 1)[0]
     head = re.sub(r'\[[^\]]*\]', '', head).strip('.')
     return head or '-'
+
+
+def library_exceptions_are_findings(check_case):
+    """Wrap a check_case(): an exception *born inside the library* (innermost frame in cryptoparser / cryptodatahub)
+    that an adapter of the harness did not expect - a constructor refusing an in-domain value, an accessor raising -
+    is reported as a finding of its own root cause instead of ending the run as a harness error.  Exceptions born in
+    harness code (wrong keyword, failed self-check of a reference codec) still end the run with exit 2."""
+    import functools  # pylint: disable=import-outside-toplevel
+    from vf.core.stats import Finding  # pylint: disable=import-outside-toplevel
+
+    @functools.wraps(check_case)
+    def guarded(case, *args, **kwargs):
+        try:
+            return check_case(case, *args, **kwargs)
+        except AssertionError:
+            raise
+        except Exception as exc:  # pylint: disable=broad-except
+            if type(exc).__name__ in ('Hang', 'WorkLimitExceeded', 'NotACase', 'HarnessError', 'BuildError'):
+                raise
+            innermost = None
+            for frame, _lineno in traceback.walk_tb(exc.__traceback__):
+                innermost = frame.f_code.co_filename.replace('\\', '/')
+            if innermost is None or not ('/cryptoparser/' in innermost or '/cryptodatahub/' in innermost):
+                raise
+            return [Finding('library-raises:%s@%s' % (type(exc).__name__, raise_locus(exc)),
+                            {'error': repr(exc)[:300], 'case_kind': case.get('kind') if isinstance(case, dict) else None})]
+    return guarded
